@@ -330,15 +330,15 @@ def panocParams (pr : Panoc.Params α) (c : InnerCall α) : Panoc.Params α :=
     `y`, `Σ`, `x`, the `err_z` buffer from the call; stop schedule and clock are arbitrary oracles -/
 def panocRun (Pf : Vec α → Vec α → Panoc.Problem α) (dir : Direction Dd α) (d0 : Dd)
     (pr : Panoc.Params α) (stop : InnerCall α → Nat → Bool) (oot : InnerCall α → Bool)
-    (gV : Vec α) (gS : α) (c : InnerCall α) : Panoc.Result α Dd :=
+    (gV : Vec α) (gS iS : α) (c : InnerCall α) : Panoc.Result α Dd :=
   Panoc.run (Pf c.y c.sigma) dir d0 (panocParams pr c)
-    (stop c) (oot c) c.x c.y c.sigma c.errBuf gV gS
+    (stop c) (oot c) c.x c.y c.sigma c.errBuf gV gS iS
 
 /-- `PANOCSolver::operator()` as an inner-solver function of the ALM model. -/
 def panocInner (Pf : Vec α → Vec α → Panoc.Problem α) (dir : Direction Dd α) (d0 : Dd)
     (pr : Panoc.Params α) (stop : InnerCall α → Nat → Bool) (oot clock : InnerCall α → Bool)
-    (gV : Vec α) (gS : α) (c : InnerCall α) : InnerResult α (Panoc.Stats α) :=
-  let r := panocRun Pf dir d0 pr stop oot gV gS c
+    (gV : Vec α) (gS iS : α) (c : InnerCall α) : InnerResult α (Panoc.Stats α) :=
+  let r := panocRun Pf dir d0 pr stop oot gV gS iS c
   ⟨r.stats.status, r.stats.eps, r.x, r.y, r.errz, r.stats, clock c⟩
 
 /-- **PANOC satisfies `InnerContract`** for the ApproxKKT criterion (the default) with lazy gradient
@@ -358,28 +358,28 @@ theorem panoc_satisfies_inner_contract_partial (pb : ProblemCF α)
     (Pf : Vec α → Vec α → Panoc.Problem α) (hO : OracleContract pb Pf)
     (dir : Direction Dd α) (d0 : Dd) (pr : Panoc.Params α) (hp : ParamsOK pr)
     (hcrit : pr.stopCrit = .ApproxKKT) (hlazy : pr.eagerGradientEval = false)
-    (stop : InnerCall α → Nat → Bool) (oot clock : InnerCall α → Bool) (gV : Vec α) (gS : α)
-    (hfuel : ∀ c, (panocRun Pf dir d0 pr stop oot gV gS c).fuelOut = false)
-    (hsize : ∀ c, (panocRun Pf dir d0 pr stop oot gV gS c).x.length = c.x.length ∧
-      (panocRun Pf dir d0 pr stop oot gV gS c).y.length = c.y.length ∧
-      (panocRun Pf dir d0 pr stop oot gV gS c).errz.length = c.errBuf.length) :
-    InnerContract pb (panocInner Pf dir d0 pr stop oot clock gV gS) := by
+    (stop : InnerCall α → Nat → Bool) (oot clock : InnerCall α → Bool) (gV : Vec α) (gS iS : α)
+    (hfuel : ∀ c, (panocRun Pf dir d0 pr stop oot gV gS iS c).fuelOut = false)
+    (hsize : ∀ c, (panocRun Pf dir d0 pr stop oot gV gS iS c).x.length = c.x.length ∧
+      (panocRun Pf dir d0 pr stop oot gV gS iS c).y.length = c.y.length ∧
+      (panocRun Pf dir d0 pr stop oot gV gS iS c).errz.length = c.errBuf.length) :
+    InnerContract pb (panocInner Pf dir d0 pr stop oot clock gV gS iS) := by
   -- what a converged run looks like
-  have key : ∀ c, (panocRun Pf dir d0 pr stop oot gV gS c).stats.status = .Converged →
+  have key : ∀ c, (panocRun Pf dir d0 pr stop oot gV gS iS c).stats.status = .Converged →
       ∃ it : Iterate α, 0 < it.gamma ∧
         it.xhat = vadd it.x (projStepVO it.gamma it.x it.gradPsi pb.C) ∧
         it.p = projStepVO it.gamma it.x it.gradPsi pb.C ∧
         it.yhat = yhatCF pb it.xhat c.y c.sigma ∧
         it.gradPsiHat = pb.gradL it.xhat it.yhat ∧
-        (panocRun Pf dir d0 pr stop oot gV gS c).x = it.xhat ∧
-        (panocRun Pf dir d0 pr stop oot gV gS c).y = it.yhat ∧
-        (panocRun Pf dir d0 pr stop oot gV gS c).stats.eps =
+        (panocRun Pf dir d0 pr stop oot gV gS iS c).x = it.xhat ∧
+        (panocRun Pf dir d0 pr stop oot gV gS iS c).y = it.yhat ∧
+        (panocRun Pf dir d0 pr stop oot gV gS iS c).stats.eps =
           stopCrit_ApproxKKT (fun _ v _ => (v, v)) it.p it.gamma it.x it.xhat it.yhat it.gradPsi
             it.gradPsiHat ∧
-        (0 < c.errBuf.length → (panocRun Pf dir d0 pr stop oot gV gS c).errz =
+        (0 < c.errBuf.length → (panocRun Pf dir d0 pr stop oot gV gS iS c).errz =
           vdiv (vsub it.yhat c.y) c.sigma) ∧
         (0 < c.opts.tolerance →
-          (panocRun Pf dir d0 pr stop oot gV gS c).stats.eps ≤ c.opts.tolerance) := by
+          (panocRun Pf dir d0 pr stop oot gV gS iS c).stats.eps ≤ c.opts.tolerance) := by
     intro c hc
     have hf := hfuel c
     unfold panocRun at hc hf ⊢
@@ -388,7 +388,7 @@ theorem panoc_satisfies_inner_contract_partial (pb : ProblemCF α)
     have hcrit' : pr'.stopCrit = .ApproxKKT := by subst hpr'; exact hcrit
     have hlazy' : pr'.eagerGradientEval = false := by subst hpr'; exact hlazy
     have htol' : pr'.tolerance = c.opts.tolerance := by subst hpr'; rfl
-    rcases run_exit_inv (Pf c.y c.sigma) dir d0 pr' hp' (stop c) (oot c) c.x c.y c.sigma c.errBuf gV gS hf
+    rcases run_exit_inv (Pf c.y c.sigma) dir d0 pr' hp' (stop c) (oot c) c.x c.y c.sigma c.errBuf gV gS iS hf
       with hnf | ⟨s', hinv, hrun⟩
     · rw [hnf] at hc; cases hc
     · set P := Pf c.y c.sigma with hP
@@ -443,18 +443,18 @@ theorem panoc_satisfies_inner_contract_partial (pb : ProblemCF α)
   · intro c hc
     obtain ⟨it, hγ, hxh, hpp, hyh, hgL, hx, hy, heps, herr, _⟩ := key c hc
     refine ⟨it.gamma, it.x, it.gradPsi, hγ, ?_, ?_, ?_, ?_⟩
-    · show (panocRun Pf dir d0 pr stop oot gV gS c).x = _
+    · show (panocRun Pf dir d0 pr stop oot gV gS iS c).x = _
       rw [hx]; exact hxh
-    · show (panocRun Pf dir d0 pr stop oot gV gS c).stats.eps = stopCrit_ApproxKKT _ _ _ _
-        (panocRun Pf dir d0 pr stop oot gV gS c).x (panocRun Pf dir d0 pr stop oot gV gS c).y _
-        (pb.gradL (panocRun Pf dir d0 pr stop oot gV gS c).x (panocRun Pf dir d0 pr stop oot gV gS c).y)
+    · show (panocRun Pf dir d0 pr stop oot gV gS iS c).stats.eps = stopCrit_ApproxKKT _ _ _ _
+        (panocRun Pf dir d0 pr stop oot gV gS iS c).x (panocRun Pf dir d0 pr stop oot gV gS iS c).y _
+        (pb.gradL (panocRun Pf dir d0 pr stop oot gV gS iS c).x (panocRun Pf dir d0 pr stop oot gV gS iS c).y)
       rw [heps, hx, hy, ← hgL, ← hpp]
-    · show (panocRun Pf dir d0 pr stop oot gV gS c).y =
-        yhatCF pb (panocRun Pf dir d0 pr stop oot gV gS c).x c.y c.sigma
+    · show (panocRun Pf dir d0 pr stop oot gV gS iS c).y =
+        yhatCF pb (panocRun Pf dir d0 pr stop oot gV gS iS c).x c.y c.sigma
       rw [hy, hx]; exact hyh
     · intro hl
-      show (panocRun Pf dir d0 pr stop oot gV gS c).errz =
-        vdiv (vsub (panocRun Pf dir d0 pr stop oot gV gS c).y c.y) c.sigma
+      show (panocRun Pf dir d0 pr stop oot gV gS iS c).errz =
+        vdiv (vsub (panocRun Pf dir d0 pr stop oot gV gS iS c).y c.y) c.sigma
       rw [herr hl, hy]
   · intro c ht hc
     obtain ⟨_, _, _, _, _, _, _, _, _, _, htol⟩ := key c hc
